@@ -54,12 +54,12 @@ fn c05_is_bool_dictionary() {
     let v0: bool = kani::any();
     let v1: bool = kani::any();
     // physical row 1 is NULL  =>  logical row 0 is NULL, logical row 1 = v0
-    let r = out2!(IsBool<false, true>, vec![dict2(v0, v1, 1)]);
+    let r = out2!(IsBool<false, true>, vec![dict2::<bool>(v0, v1, 1)]);
     assert!(r[0] == Some(false) && r[1] == Some(v0), "IS TRUE through a selection: NULL row -> false, other row by value");
-    let r = out2!(IsBool<true, false>, vec![dict2(v0, v1, 1)]);
+    let r = out2!(IsBool<true, false>, vec![dict2::<bool>(v0, v1, 1)]);
     assert!(r[0] == Some(true) && r[1] == Some(v0), "IS NOT FALSE through a selection");
     // physical row 0 is NULL  =>  logical row 1 is NULL, logical row 0 = v1
-    let r = out2!(IsBool<false, false>, vec![dict2(v0, v1, 0)]);
+    let r = out2!(IsBool<false, false>, vec![dict2::<bool>(v0, v1, 0)]);
     assert!(r[0] == Some(!v1) && r[1] == Some(false), "IS FALSE through a selection");
     kani::cover!(true);
 }
@@ -72,9 +72,9 @@ fn c05_is_bool_dictionary() {
 fn c05_not_dictionary() {
     let v0: bool = kani::any();
     let v1: bool = kani::any();
-    let r = out2!(Not, vec![dict2(v0, v1, 1)]);
+    let r = out2!(Not, vec![dict2::<bool>(v0, v1, 1)]);
     assert!(r[0].is_none() && r[1] == Some(!v0), "NOT through a selection: NULL row stays NULL, other row negated");
-    let r = out2!(Not, vec![dict2(v0, v1, 0)]);
+    let r = out2!(Not, vec![dict2::<bool>(v0, v1, 0)]);
     assert!(r[0] == Some(!v1) && r[1].is_none(), "NOT through a selection (other NULL position)");
     kani::cover!(true);
 }
@@ -91,7 +91,7 @@ fn c05_eq_dictionary_vs_flat() {
     let b1: i32 = kani::any();
     // left: dictionary [a1 (NULL), a0]; right: flat [b0, b1]
     let right = ok(Array::try_from_iter([b0, b1]));
-    let r = out2!(FlatComparison<EqOperation, PhysicalI32>, vec![dict2(a0, a1, 1), right]);
+    let r = out2!(FlatComparison<EqOperation, PhysicalI32>, vec![dict2::<i32>(a0, a1, 1), right]);
     assert!(r[0].is_none() && r[1] == Some(a0 == b1), "= with a dictionary operand: row-wise, NULL row stays NULL");
     kani::cover!(true);
 }
